@@ -193,6 +193,14 @@ fn check_source_rule(view: &NodeView, ip: &Ip, pkt: &Packet) -> Result<(), Viola
         if view.raw_tx {
             return Ok(());
         }
+        if src.is_loopback() && !src.is_v4() {
+            return Err(viol(
+                "C10",
+                "source",
+                "C10.source/ipv6-loopback",
+                format!("IP source is the loopback address ::1, which is not configured on the interface {:?}: {}", view.addrs, pkt.summary()),
+            ));
+        }
         return Err(viol(
             "C10",
             "source",
